@@ -12,6 +12,7 @@
 // any disagreement appends ORACLE-FAIL(...) to the record.
 #include "private_access.h"
 #include "kit.h"
+#include <cxxabi.h>
 #include <momo/HashMultiMap.h>
 #include <momo/details/HashBucketLimP4.h>
 #include <momo/details/HashBucketOpen8.h>
@@ -23,7 +24,7 @@
 
 typedef long long i64;
 static int g_hashmode = 0;
-static size_t g_injected = 0, g_inj_add = 0, g_inj_shrink = 0, g_inj_rollback = 0;   // number of injected failures that actually fired (reported on stderr)
+static size_t g_injected = 0, g_inj_add = 0, g_inj_shrink = 0, g_inj_rollback = 0, g_inj_copy = 0, g_inj_swallowed = 0;   // number of injected failures that actually fired (reported on stderr)
 
 struct KeyT {
 	int id; int tag;
@@ -48,9 +49,22 @@ struct Hasher {
 	}
 };
 struct Eq { bool operator()(const KeyT& a, const KeyT& b) const noexcept { return a.id == b.id; } };
+// key adapters: KeyT = slow-hash key with identity (custom functor => useHashCodePartGetter buckets);
+// int = fast-nothrow-hashable key with HashCoder (the only way to reach BucketOpen8 and the plain LimP4/Open2N2 variants)
+inline int kid(const KeyT& k) { return k.id; }
+inline int ktag(const KeyT& k) { return k.tag; }
+inline int kid(int k) { return k; }
+inline int ktag(int) { return 0; }
+template<typename K> struct KeyMaker;
+template<> struct KeyMaker<KeyT> { static KeyT make(int id, int tag) { return KeyT(id, tag); } };
+template<> struct KeyMaker<int> { static int make(int id, int) { return id; } };
+#define MK(a, b) KeyMaker<KEY>::make((a), (b))
 
-template<size_t M> struct Settings : public momo::HashMultiMapSettings {
+template<size_t M, bool CV, typename PoolParams> struct Settings : public momo::HashMultiMapSettings {
 	static const size_t valueArrayMaxFastCount = M;
+	static const bool checkKeyVersion = CV;       // iterator version checking on / off (different crews / iterators)
+	static const bool checkValueVersion = CV;
+	typedef PoolParams ValueArrayMemPoolParams;   // pool of the pooled value arrays: blocks per buffer, cached free blocks
 };
 
 template<typename V> struct Conv;
@@ -86,6 +100,7 @@ static std::vector<std::string> split(const std::string& s, char c) {
 template<typename MM, typename V>
 struct Runner {
 	typedef Conv<V> C;
+	typedef typename MM::Key KEY;
 	MM cur, oth;
 	Twin tcur, toth;
 	std::ostringstream out;
@@ -104,7 +119,7 @@ struct Runner {
 		std::vector<int> keyOrder;
 		// representation through the nested hash map (private access)
 		for (auto ref : mm.mHashMap) {
-			Rec rc; rc.tag = ref.key.tag;
+			Rec rc; rc.tag = ktag(ref.key);
 			auto& arr = ref.value;
 			std::ostringstream r;
 			if (arr.mPtr == nullptr) r << "N";
@@ -122,25 +137,25 @@ struct Runner {
 			rc.repr = r.str();
 			auto b = ref.value.GetBounds();
 			for (size_t i = 0; i < b.GetCount(); ++i) rc.vals.push_back(C::dec(b[i]));
-			if (recs.count(ref.key.id)) oracle_fail("duplicate key in nested map");
-			recs[ref.key.id] = rc;
+			if (recs.count(kid(ref.key))) oracle_fail("duplicate key in nested map");
+			recs[kid(ref.key)] = rc;
 		}
 		// public view: key bounds
 		{
 			auto kb = mm.GetKeyBounds();
 			if (kb.GetCount() != mm.GetKeyCount()) oracle_fail("GetKeyBounds().GetCount() != GetKeyCount()");
 			for (auto kref : kb) {
-				++nkeys; keyOrder.push_back(kref.key.id);
-				auto it = recs.find(kref.key.id);
+				++nkeys; keyOrder.push_back(kid(kref.key));
+				auto it = recs.find(kid(kref.key));
 				if (it == recs.end()) { oracle_fail("key bounds key not in nested map"); continue; }
 				if (kref.GetCount() != it->second.vals.size()) oracle_fail("key ref count");
 				size_t i = 0;
 				for (auto vit = kref.GetBegin(); vit != kref.GetEnd(); ++vit, ++i)
 					if (i >= it->second.vals.size() || C::dec(*vit) != it->second.vals[i]) oracle_fail("key ref values");
 				sum += kref.GetCount();
-				auto f = mm.Find(KeyT{kref.key.id, -1});
-				if (!f || f->key.tag != kref.key.tag || f->GetCount() != kref.GetCount()) oracle_fail("Find(key) disagrees with key bounds");
-				if (!mm.ContainsKey(KeyT{kref.key.id, -1})) oracle_fail("ContainsKey false for present key");
+				auto f = mm.Find(MK(kid(kref.key), -1));
+				if (!f || ktag(f->key) != ktag(kref.key) || f->GetCount() != kref.GetCount()) oracle_fail("Find(key) disagrees with key bounds");
+				if (!mm.ContainsKey(MK(kid(kref.key), -1))) oracle_fail("ContainsKey false for present key");
 			}
 		}
 		if (nkeys != mm.GetKeyCount() || nkeys != recs.size()) oracle_fail("key count");
@@ -155,7 +170,7 @@ struct Runner {
 		// values contiguous and in array order, no pair for a value-less key
 		std::map<int, std::vector<i64>> trav; std::vector<int> travKeys; size_t tn = 0;
 		for (auto it = mm.GetBegin(); it != mm.GetEnd(); ++it) {
-			int id = it->key.id; i64 v = C::dec(it->value);
+			int id = kid(it->key); i64 v = C::dec(it->value);
 			if (travKeys.empty() || travKeys.back() != id) {
 				if (trav.count(id)) oracle_fail("traversal: key visited in two separate runs");
 				travKeys.push_back(id);
@@ -187,8 +202,8 @@ struct Runner {
 		}
 		// absent key probes
 		for (int id = 0; id < 3; ++id) {
-			int probe = 1000 + id;
-			if (!!mm.Find(KeyT{probe, 0}) || mm.ContainsKey(KeyT{probe, 0})) oracle_fail("absent key found");
+			int probe = 1000000 + id;      // generators never use ids >= 10^6
+			if (!!mm.Find(MK(probe, 0)) || mm.ContainsKey(MK(probe, 0))) oracle_fail("absent key found");
 		}
 		return o.str();
 	}
@@ -213,6 +228,7 @@ static std::string run_case(const std::vector<std::string>& ops) {
 template<typename MM, typename V>
 static std::string run_case_inner(const std::vector<std::string>& ops) {
 	typedef Conv<V> C;
+	typedef typename MM::Key KEY;
 	Runner<MM, V> R;
 	MM& cur = R.cur; MM& oth = R.oth; Twin& tc = R.tcur; Twin& to = R.toth;
 	std::ostringstream line;
@@ -233,7 +249,9 @@ static std::string run_case_inner(const std::vector<std::string>& ops) {
 			std::string before = R.dump(cur, tc);
 			for (long j = 0; j < 64; ++j) {
 				kit::W().arm(j, -1, -1);
-				try { call(); bool unused = kit::W().fail_alloc >= 0; kit::W().disarm(); if (!unused) R.oracle_fail("injected allocation failure was swallowed"); return; }
+				// completed: either no allocation j exists, or momo swallowed the failure by design (HashSet falls back to adding
+				// without growing the table when the growth allocation fails) -- the call then has its normal effect
+				try { call(); if (kit::W().fail_alloc < 0) ++g_inj_swallowed; kit::W().disarm(); return; }
 				catch (const std::bad_alloc&) {
 					kit::W().disarm(); ++R.injected; ++g_inj_add;
 					if (R.dump(cur, tc) != before) { R.oracle_fail("state changed by a call that threw bad_alloc (failure point " + std::to_string(j) + ")"); return; }
@@ -246,55 +264,63 @@ static std::string run_case_inner(const std::vector<std::string>& ops) {
 			int k = (int)a[0], t = (int)a[1]; i64 v = a[2];
 			typename MM::Iterator it;
 			with_alloc_failures([&]() {
-				if (v % 3 == 0) { V val = C::enc(v); it = cur.Add(KeyT{k, t}, val); }
-				else if (v % 3 == 1) { KeyT key{k, t}; it = cur.Add(key, C::enc(v)); }
-				else it = cur.Add(KeyT{k, t}, C::enc(v));
+				if (v % 5 == 3) {          // AddCrt(Key&&, creator) / AddCrt(const Key&, creator)
+					V val = C::enc(v);
+					auto crt = [&val](V* p) { ::new(static_cast<void*>(p)) V(val); };
+					if (k % 2) it = cur.AddCrt(MK(k, t), crt); else { KEY key = MK(k, t); it = cur.AddCrt(key, crt); }
+				}
+				else if (v % 5 == 4) { KEY key = MK(k, t); V val = C::enc(v); it = cur.AddVar(key, val); }   // AddVar(const Key&, const Value&)
+				else if (v % 3 == 0) { V val = C::enc(v); it = cur.Add(MK(k, t), val); }
+				else if (v % 3 == 1) { KEY key = MK(k, t); it = cur.Add(key, C::enc(v)); }
+				else it = cur.Add(MK(k, t), C::enc(v));
 			});
 			if (!R.fail.empty()) break;
-			ret << "it(" << it->key.id << "," << C::dec(it->value) << ")";
+			ret << "it(" << kid(it->key) << "," << C::dec(it->value) << ")";
 			auto f = tc.m.find(k);
 			if (f == tc.m.end()) tc.m[k] = std::make_pair(t, std::vector<i64>{v}); else f->second.second.push_back(v);
 			break; }
 		case 'A': {
 			int k = (int)a[0]; i64 v = a[1];
-			auto ki = cur.Find(KeyT{k, -1});
+			auto ki = cur.Find(MK(k, -1));
 			if (!ki) { ret << "skip"; break; }
 			typename MM::Iterator it;
 			with_alloc_failures([&]() {
-				auto kf = cur.Find(KeyT{k, -1});
-				if (v % 2 == 0) { V val = C::enc(v); it = cur.Add(kf, val); } else it = cur.Add(kf, C::enc(v));
+				auto kf = cur.Find(MK(k, -1));
+				if (v % 5 == 3) { V val = C::enc(v); it = cur.AddCrt(kf, [&val](V* p) { ::new(static_cast<void*>(p)) V(val); }); }
+				else if (v % 5 == 4) it = cur.AddVar(kf, C::enc(v));
+				else if (v % 2 == 0) { V val = C::enc(v); it = cur.Add(kf, val); } else it = cur.Add(kf, C::enc(v));
 			});
 			if (!R.fail.empty()) break;
-			ret << "it(" << it->key.id << "," << C::dec(it->value) << ")";
+			ret << "it(" << kid(it->key) << "," << C::dec(it->value) << ")";
 			tc.m[k].second.push_back(v);
 			break; }
 		case 'i': {
 			int k = (int)a[0], t = (int)a[1];
 			typename MM::KeyIterator ki;
-			if (t % 2 == 0) { KeyT key{k, t}; ki = cur.InsertKey(key); } else ki = cur.InsertKey(KeyT{k, t});
-			ret << "key(" << ki->key.id << "," << ki->key.tag << "," << ki->GetCount() << ")";
+			if (t % 2 == 0) { KEY key = MK(k, t); ki = cur.InsertKey(key); } else ki = cur.InsertKey(MK(k, t));
+			ret << "key(" << kid(ki->key) << "," << ktag(ki->key) << "," << ki->GetCount() << ")";
 			if (!tc.m.count(k)) tc.m[k] = std::make_pair(t, std::vector<i64>());
 			break; }
 		case 'r': case 'R': {
 			int k = (int)a[0]; size_t i = (size_t)a[1];
-			auto ki = cur.Find(KeyT{k, -1});
+			auto ki = cur.Find(MK(k, -1));
 			if (!ki || i >= ki->GetCount()) { ret << "skip"; break; }
 			// flat position of the pair in the traversal (any key order)
 			size_t pos = 0; { const V* target = &ki->GetBegin()[i]; bool found = false;
 				for (auto itx = cur.GetBegin(); itx != cur.GetEnd(); ++itx, ++pos) if (&itx->value == target) { found = true; break; }
 				if (!found) R.oracle_fail("Remove: pair not in the traversal"); }
-			std::vector<int> orderBefore; for (auto kref : cur.GetKeyBounds()) orderBefore.push_back(kref.key.id);
+			std::vector<int> orderBefore; for (auto kref : cur.GetKeyBounds()) orderBefore.push_back(kid(kref.key));
 			if (inject) kit::W().arm(0, -1, -1);          // a Shrink inside RemoveBack fails: must be swallowed
 			typename MM::Iterator it;
 			typename MM::KeyIterator km;      // movable key iterator: found by walking the key bounds
-			if (c == 'R') { for (km = cur.GetKeyBounds().GetBegin(); !!km && km->key.id != k; ++km) {} if (!km) { R.oracle_fail("key not in key bounds"); break; } }
+			if (c == 'R') { for (km = cur.GetKeyBounds().GetBegin(); !!km && kid(km->key) != k; ++km) {} if (!km) { R.oracle_fail("key not in key bounds"); break; } }
 			try { it = (c == 'r') ? cur.Remove(ki, i) : ((a[1] + k) % 2 ? cur.Remove(km, i) : cur.Remove(cur.MakeIterator(km, i))); }
 			catch (...) { R.oracle_fail("Remove threw"); kit::W().disarm(); break; }
 			if (inject) { if (kit::W().fail_alloc < 0) { ++R.injected; ++g_inj_shrink; } kit::W().disarm(); }
 			auto& vec = tc.m[k].second;
 			vec[i] = vec.back(); vec.pop_back();
 			{	// the returned iterator is the one at the same flat position of the new traversal (end if none)
-				std::vector<int> orderAfter; for (auto kref : cur.GetKeyBounds()) orderAfter.push_back(kref.key.id);
+				std::vector<int> orderAfter; for (auto kref : cur.GetKeyBounds()) orderAfter.push_back(kid(kref.key));
 				if (orderAfter != orderBefore) R.oracle_fail("Remove changed the key order");
 				auto itx = cur.GetBegin(); for (size_t q = 0; q < pos && itx != cur.GetEnd(); ++q) ++itx;
 				// a key iterator obtained from a traversal is movable: the result continues the traversal (theorem
@@ -305,14 +331,14 @@ static std::string run_case_inner(const std::vector<std::string>& ops) {
 				else if (!(it == cur.GetEnd())) R.oracle_fail("Remove(Find): position-derived iterator should end");
 			}
 			if (i < vec.size()) {
-				if (!it || it->key.id != k) R.oracle_fail("Remove: returned iterator not at the same index");
-				ret << "it(" << it->key.id << "," << C::dec(it->value) << ")";
+				if (!it || kid(it->key) != k) R.oracle_fail("Remove: returned iterator not at the same index");
+				ret << "it(" << kid(it->key) << "," << C::dec(it->value) << ")";
 			} else ret << "nx";
 			break; }
 		case 'p': {
 			i64 pa = a[0], pb = a[1], pm = a[2], pr = a[3];
 			size_t calls = 0;
-			auto flt = [&](const KeyT& key, const V& val) { ++calls; return Runner<MM, V>::pred(pa, pb, pm, pr, key.id, C::dec(val)); };
+			auto flt = [&](const KEY& key, const V& val) { ++calls; return Runner<MM, V>::pred(pa, pb, pm, pr, kid(key), C::dec(val)); };
 			size_t before = cur.GetCount();
 			size_t n = cur.Remove(flt);
 			ret << "rm" << n;
@@ -330,7 +356,7 @@ static std::string run_case_inner(const std::vector<std::string>& ops) {
 			break; }
 		case 'v': {
 			int k = (int)a[0];
-			auto ki = cur.Find(KeyT{k, -1});
+			auto ki = cur.Find(MK(k, -1));
 			if (!ki) { ret << "skip"; break; }
 			cur.RemoveValues(ki);
 			tc.m[k].second.clear();
@@ -338,7 +364,7 @@ static std::string run_case_inner(const std::vector<std::string>& ops) {
 			break; }
 		case 'k': {
 			int k = (int)a[0];
-			size_t n = cur.RemoveKey(KeyT{k, -1});
+			size_t n = cur.RemoveKey(MK(k, -1));
 			ret << "rk" << n;
 			auto f = tc.m.find(k);
 			size_t tn = 0; if (f != tc.m.end()) { tn = f->second.second.size(); tc.m.erase(f); }
@@ -346,7 +372,7 @@ static std::string run_case_inner(const std::vector<std::string>& ops) {
 			break; }
 		case 'K': {
 			int k = (int)a[0];
-			auto ki = cur.Find(KeyT{k, -1});
+			auto ki = cur.Find(MK(k, -1));
 			if (!ki) { ret << "skip"; break; }
 			size_t n = ki->GetCount();
 			if (inject) {
@@ -356,7 +382,7 @@ static std::string run_case_inner(const std::vector<std::string>& ops) {
 				catch (const kit::InjectedCopy&) {
 					kit::W().disarm(); ++R.injected; ++g_inj_rollback;
 					if (R.dump(cur, tc) != before) { R.oracle_fail("RemoveKey roll-back: state changed by the throwing call"); break; }
-					cur.RemoveKey(cur.Find(KeyT{k, -1}));
+					cur.RemoveKey(cur.Find(MK(k, -1)));
 				}
 			} else cur.RemoveKey(ki);
 			ret << "rk" << n;
@@ -364,16 +390,16 @@ static std::string run_case_inner(const std::vector<std::string>& ops) {
 			break; }
 		case 'n': {
 			int k = (int)a[0], t = (int)a[1];
-			auto ki = cur.Find(KeyT{k, -1});
+			auto ki = cur.Find(MK(k, -1));
 			if (!!ki) { ret << "skip"; break; }
-			auto kc = [k, t](KeyT* newKey) { ::new(static_cast<void*>(newKey)) KeyT(k, t); };
+			auto kc = [k, t](KEY* newKey) { ::new(static_cast<void*>(newKey)) KEY(MK(k, t)); };
 			auto kn = cur.AddKeyCrt(ki, kc);
-			ret << "key(" << kn->key.id << "," << kn->key.tag << "," << kn->GetCount() << ")";
+			ret << "key(" << kid(kn->key) << "," << ktag(kn->key) << "," << kn->GetCount() << ")";
 			tc.m[k] = std::make_pair(t, std::vector<i64>());
 			break; }
 		case 'G': {
-			std::vector<std::pair<KeyT, V>> ps;
-			for (size_t q = 0; q + 2 < a.size(); q += 3) ps.push_back(std::make_pair(KeyT{(int)a[q], (int)a[q + 1]}, C::enc(a[q + 2])));
+			std::vector<std::pair<KEY, V>> ps;
+			for (size_t q = 0; q + 2 < a.size(); q += 3) ps.push_back(std::make_pair(MK((int)a[q], (int)a[q + 1]), C::enc(a[q + 2])));
 			if (ps.size() == 2 && a[2] % 2 == 0) cur.Add({ ps[0], ps[1] });      // initializer_list form
 			else cur.Add(ps.begin(), ps.end());
 			for (size_t q = 0; q + 2 < a.size(); q += 3) {
@@ -384,9 +410,9 @@ static std::string run_case_inner(const std::vector<std::string>& ops) {
 			break; }
 		case 't': {
 			int k = (int)a[0], t = (int)a[1];
-			auto ki = cur.Find(KeyT{k, -1});
+			auto ki = cur.Find(MK(k, -1));
 			if (!ki) { ret << "skip"; break; }
-			cur.ResetKey(ki, KeyT{k, t});
+			cur.ResetKey(ki, MK(k, t));
 			tc.m[k].first = t;
 			ret << "ok";
 			break; }
@@ -394,16 +420,78 @@ static std::string run_case_inner(const std::vector<std::string>& ops) {
 		case 's':
 			if (a.empty() || a[0] % 2 == 0) cur.Swap(oth); else swap(oth, cur);
 			std::swap(tc, to); ret << "ok"; both = true; break;
-		case 'y':
-			if (a.empty() || a[0] % 2 == 0) oth = cur; else { MM tmp(cur); oth = std::move(tmp); }
-			to = tc; ret << "ok"; both = true; break;
+		case 'y': {
+			int var = a.empty() ? 0 : (int)(a[0] % 3);
+			auto doCopy = [&]() {
+				if (var == 0) oth = cur;                                                     // copy assignment
+				else if (var == 1) { MM tmp(cur); oth = std::move(tmp); }                    // copy constructor
+				else { MM tmp(cur, typename MM::MemManager(cur.GetMemManager())); oth.Swap(tmp); }   // copy with a memory manager
+			};
+			if (inject) {   // a failing allocation anywhere in the copy: neither container may change
+				std::string b1 = R.dump(cur, tc), b2 = R.dump(oth, to); bool done = false;
+				for (long j = 0; j < 400 && !done; ++j) {
+					kit::W().arm(j, -1, -1);
+					try { doCopy(); kit::W().disarm(); done = true; }
+					catch (const std::bad_alloc&) {
+						kit::W().disarm(); ++R.injected; ++g_inj_copy;
+						if (R.dump(cur, tc) != b1 || R.dump(oth, to) != b2) { R.oracle_fail("a copy that threw changed a container (failure point " + std::to_string(j) + ")"); break; }
+					}
+				}
+				if (!done && R.fail.empty()) R.oracle_fail("copy: more than 400 failure points");
+			} else doCopy();
+			to = tc; ret << "ok"; both = true; break; }
 		case 'Y':
 			if (a.empty() || a[0] % 2 == 0) cur = oth; else { MM tmp(oth); cur.Swap(tmp); }
 			tc = to; ret << "ok"; both = true; break;
-		case 'm':
-			if (a.empty() || a[0] % 2 == 0) { cur = std::move(oth); oth = MM(); }
-			else { MM tmp(std::move(oth)); cur.Swap(tmp); oth = MM(); }
-			tc = to; to.m.clear(); ret << "ok"; both = true; break;
+		case 'm': {
+			int var = a.empty() ? 0 : (int)(a[0] % 4);
+			if (var == 1) { MM tmp(std::move(oth)); cur.Swap(tmp); } else cur = std::move(oth);
+			// the moved-from container: a client may clear it, query it, assign to it or just let it die
+			if (var == 2) {
+				oth.Clear();
+				if (oth.GetCount() != 0 || !oth.IsEmpty() || !(oth.GetBegin() == oth.GetEnd())) R.oracle_fail("moved-from container not empty after Clear");
+			}
+			if (var == 3) { MM fresh; oth = fresh; }                    // copy assignment into the moved-from container
+			else oth = MM();                                            // move assignment into it
+			tc = to; to.m.clear(); ret << "ok"; both = true; break; }
+		case 'L': {   // construct from an initializer list (0..3 pairs) and move-assign: cur = MM{...}
+			std::vector<std::pair<KEY, V>> ps;
+			for (size_t q = 0; q + 2 < a.size(); q += 3) ps.push_back(std::make_pair(MK((int)a[q], (int)a[q + 1]), C::enc(a[q + 2])));
+			auto build = [&](std::initializer_list<std::pair<KEY, V>> il) { MM tmp(il); cur = std::move(tmp); };
+			switch (ps.size()) {
+			case 0: build({}); break;
+			case 1: build({ps[0]}); break;
+			case 2: build({ps[0], ps[1]}); break;
+			default: build({ps[0], ps[1], ps[2]}); break;
+			}
+			tc.m.clear();
+			for (size_t q = 0; q + 2 < a.size() && q < 9; q += 3) {
+				int k = (int)a[q]; auto f = tc.m.find(k);
+				if (f == tc.m.end()) tc.m[k] = std::make_pair((int)a[q + 1], std::vector<i64>{a[q + 2]}); else f->second.second.push_back(a[q + 2]);
+			}
+			ret << "ok"; break; }
+		case 'M': {   // MakeIterator / MakeMutableIterator / CheckIterator at (key, index), index in 0..count
+			int k = (int)a[0]; size_t i = (size_t)a[1];
+			typename MM::KeyIterator km;
+			for (km = cur.GetKeyBounds().GetBegin(); !!km && kid(km->key) != k; ++km) {}
+			if (!km || i > km->GetCount()) { ret << "skip"; break; }
+			size_t pos = 0;
+			for (auto kx = cur.GetKeyBounds().GetBegin(); !!kx && kid(kx->key) != k; ++kx) pos += kx->GetCount();
+			pos += i;
+			auto itx = cur.GetBegin(); for (size_t q = 0; q < pos && itx != cur.GetEnd(); ++q) ++itx;
+			typename MM::Iterator mi = cur.MakeIterator(km, i);
+			if (!(mi == itx)) R.oracle_fail("MakeIterator(keyIter, index) is not the iterator at that flat position");
+			const MM& ccur = cur;
+			typename MM::ConstKeyIterator ckm = km;
+			typename MM::ConstIterator cmi = ccur.MakeIterator(ckm, i);
+			typename MM::Iterator back = cur.MakeMutableIterator(cmi);
+			if (!(back == mi)) R.oracle_fail("MakeMutableIterator(const iterator) differs");
+			cur.CheckIterator(cmi); cur.CheckKeyIterator(ckm);
+			if (cur.MakeMutableKeyIterator(ckm) != km) R.oracle_fail("MakeMutableKeyIterator differs");
+			auto kf = cur.Find(MK(k, -1));
+			if (i < kf->GetCount()) { auto fi = cur.MakeIterator(kf, i); if (!fi || C::dec(fi->value) != C::dec(km->GetBegin()[i])) R.oracle_fail("MakeIterator(Find(k), i) dereferences another value"); }
+			if (cur.GetValueCount() != cur.GetCount()) R.oracle_fail("GetValueCount");
+			ret << "mi"; break; }
 		default: ret << "?"; break;
 		}
 		if (!firstRec) line << "|";
@@ -415,22 +503,77 @@ static std::string run_case_inner(const std::vector<std::string>& ops) {
 	return line.str();
 }
 
-template<typename Bucket, size_t M, typename V>
-using MMap = momo::HashMultiMap<KeyT, V, momo::HashTraitsStd<KeyT, Hasher, Eq, Bucket>, kit::MMR,
-	momo::HashMultiMapKeyValueTraits<KeyT, V, kit::MMR>, Settings<M>>;
+static std::string demangle(const char* n) {
+	int st = 0; char* d = abi::__cxa_demangle(n, nullptr, nullptr, &st);
+	std::string r = (st == 0 && d) ? d : n; std::free(d); return r;
+}
+
+// One configuration = (bucket class, key kind, memory manager, version checking, pool parameters); the value type is
+// int64 (trivially relocatable) or std::string by parity of M, so that every configuration sees both across the M values.
+//   L.c  HashBucketLimP4<>    KeyT + custom functor  kit::MMR  CV off  MemPoolParams<>
+//   O8.c HashBucketOpen8      KeyT + custom functor  kit::MMR  CV off  MemPoolParams<>      (=> BucketOpen2N2<.,3,true>!)
+//   O2.c HashBucketOpen2N2<>  KeyT + custom functor  kit::MM   CV on   MemPoolParams<>      (no Reallocate)
+//   L.f  HashBucketLimP4<>    int + HashCoder        kit::MMR  CV on   MemPoolParams<3, 1>  (tiny pool buffers)
+//   O8.f HashBucketOpen8      int + HashCoder        kit::MMR  CV off  MemPoolParams<>      (=> BucketOpen8)
+//   O2.f HashBucketOpen2N2<>  int + HashCoder        kit::MM   CV off  MemPoolParams<5, 0>
+template<typename Key, typename HT, typename MemMgr, size_t M, bool CV, typename PP, typename V>
+using MMapT = momo::HashMultiMap<Key, V, HT, MemMgr, momo::HashMultiMapKeyValueTraits<Key, V, MemMgr>, Settings<M, CV, PP>>;
+
+template<typename MM, typename V>
+static std::string describe() {
+	typedef typename MM::HashMap::HashSet::Bucket Bucket;
+	std::string b = demangle(typeid(Bucket).name());
+	std::string head = b.substr(0, b.find('<'));
+	std::string tail = b.substr(b.rfind(',') == std::string::npos ? 0 : b.rfind(','));
+	std::ostringstream o;
+	o << "bucket=" << head << " lastarg=" << tail
+	  << " fasthash=" << MM::HashTraits::isFastNothrowHashable
+	  << " M=" << MM::ValueArray::maxFastCount
+	  << " trivreloc=" << MM::ValueArray::ItemTraits::isTriviallyRelocatable
+	  << " cv=" << MM::Settings::checkValueVersion << MM::Settings::checkKeyVersion
+	  << " realloc=" << momo::internal::MemManagerProxy<typename MM::MemManager>::canReallocate
+	  << " poolblocks=" << MM::Settings::ValueArrayMemPoolParams::blockCount
+	  << " cached=" << MM::Settings::ValueArrayMemPoolParams::cachedFreeBlockCount;
+	return o.str();
+}
+
+template<typename MM, typename V>
+static std::string dispatch(bool describeOnly, const std::vector<std::string>& ops) {
+	return describeOnly ? describe<MM, V>() : run_case<MM, V>(ops);
+}
 
 template<size_t M, typename V>
-static std::string by_bucket(const std::string& b, const std::vector<std::string>& ops) {
-	if (b == "L") return run_case<MMap<momo::HashBucketLimP4<>, M, V>, V>(ops);
-	if (b == "O8") return run_case<MMap<momo::HashBucketOpen8, M, V>, V>(ops);
-	if (b == "O2") return run_case<MMap<momo::HashBucketOpen2N2<>, M, V>, V>(ops);
+static std::string by_cfg(const std::string& b, bool d, const std::vector<std::string>& ops) {
+	typedef momo::MemPoolParams<> PP0;
+#if !defined(EN_SUBSET) || defined(EN_LC)
+	if (b == "L.c") return dispatch<MMapT<KeyT, momo::HashTraitsStd<KeyT, Hasher, Eq, momo::HashBucketLimP4<>>, kit::MMR, M, false, PP0, V>, V>(d, ops);
+#endif
+#if !defined(EN_SUBSET) || defined(EN_O8C)
+	if (b == "O8.c") return dispatch<MMapT<KeyT, momo::HashTraitsStd<KeyT, Hasher, Eq, momo::HashBucketOpen8>, kit::MMR, M, false, PP0, V>, V>(d, ops);
+#endif
+#if !defined(EN_SUBSET) || defined(EN_O2C)
+	if (b == "O2.c") return dispatch<MMapT<KeyT, momo::HashTraitsStd<KeyT, Hasher, Eq, momo::HashBucketOpen2N2<>>, kit::MM, M, true, PP0, V>, V>(d, ops);
+#endif
+#if !defined(EN_SUBSET) || defined(EN_LF)
+	if (b == "L.f") return dispatch<MMapT<int, momo::HashTraits<int, momo::HashBucketLimP4<>>, kit::MMR, M, true, momo::MemPoolParams<3, 1>, V>, V>(d, ops);
+#endif
+#if !defined(EN_SUBSET) || defined(EN_O8F)
+	if (b == "O8.f") return dispatch<MMapT<int, momo::HashTraits<int, momo::HashBucketOpen8>, kit::MMR, M, false, PP0, V>, V>(d, ops);
+#endif
+#if !defined(EN_SUBSET) || defined(EN_O2F)
+	if (b == "O2.f") return dispatch<MMapT<int, momo::HashTraits<int, momo::HashBucketOpen2N2<>>, kit::MM, M, false, momo::MemPoolParams<5, 0>, V>, V>(d, ops);
+#endif
 	return "?bucket";
 }
 
+// value type by parity: configurations *.c with even M and *.f with odd M hold int64, the others std::string
+static bool wants_string(const std::string& b, size_t M) { return (b.size() > 2 && b[b.size() - 1] == 'c') == (M % 2 == 1); }
+
 template<size_t M>
-static std::string by_vt(const std::string& b, const std::string& vt, const std::vector<std::string>& ops) {
-	if (vt == "i") return by_bucket<M, i64>(b, ops);
-	if (vt == "s") return by_bucket<M, std::string>(b, ops);
+static std::string by_vt(const std::string& b, const std::string& vt, bool d, const std::vector<std::string>& ops) {
+	if ((vt == "s") != wants_string(b, M)) return "?vt";
+	if (vt == "i") return by_cfg<M, i64>(b, d, ops);
+	if (vt == "s") return by_cfg<M, std::string>(b, d, ops);
 	return "?vt";
 }
 
@@ -444,15 +587,16 @@ int main() {
 		std::vector<std::string> ops; std::string t;
 		while (is >> t) ops.push_back(t);
 		g_hashmode = hm;
+		bool d = (kind == "cfg");
 		std::string res = "?M";
 		switch (M) {
-#define X(m) case m: res = by_vt<m>(b, vt, ops); break;
+#define X(m) case m: res = by_vt<m>(b, vt, d, ops); break;
 		HM_LIST
 #undef X
 		default: break;
 		}
 		std::cout << res << "\n";
 	}
-	std::cerr << "injected=" << g_injected << " add_throw=" << g_inj_add << " shrink_swallowed=" << g_inj_shrink << " removekey_rollback=" << g_inj_rollback << "\n";
+	std::cerr << "injected=" << g_injected << " add_throw=" << g_inj_add << " shrink_swallowed=" << g_inj_shrink << " removekey_rollback=" << g_inj_rollback << " copy_throw=" << g_inj_copy << " growth_failure_swallowed=" << g_inj_swallowed << "\n";
 	return 0;
 }
